@@ -55,3 +55,12 @@ func ga_ScMinimal(s []byte) bool {
 	verif.Requires(len(s) >= 32, "ScMinimalVartime needs 32 bytes")
 	return verif.BVLE(s[:32]).ULT(verif.BVHex(hexL, 256))
 }
+
+//verif:contract for=(*curve/scalar.Scalar).Neg group=gapi
+func ga_ScNeg(s, t *Scalar) *Scalar {
+	v := verif.UFBV("sc_neg", 256, bval(t))
+	setScalarVal(s, v)
+	return s
+}
+
+func GNegS(a verif.BV) verif.BV { return verif.UFBV("sc_neg", 256, a) }
